@@ -3,6 +3,338 @@
   (`splitOn`, `join`, `replaceAll`) and Model/Rewrite.lean.
 -/
 import BumpverVerif.Model.Rewrite
+import BumpverVerif.Model.Plan
+import BumpverVerif.Proofs.PlanLemmas
 namespace BV
+
+/-! ### `splitOn` / `join` -/
+
+theorem splitOnF_ne_nil (f : Nat) (sep cur s : Str) : splitOnF f sep cur s ≠ [] := by
+  induction f generalizing cur s with
+  | zero => simp [splitOnF]
+  | succ f ih =>
+    cases s with
+    | nil => simp [splitOnF]
+    | cons c cs =>
+      unfold splitOnF
+      split
+      · simp
+      · exact ih _ _
+
+theorem join_cons_of_ne_nil (sep p : Str) {l : List Str} (h : l ≠ []) :
+    join sep (p :: l) = p ++ sep ++ join sep l := by
+  cases l with
+  | nil => exact absurd rfl h
+  | cons q qs => rfl
+
+theorem join_splitOnF (sep : Str) (hsep : sep ≠ []) (f : Nat) (cur s : Str) (hf : s.length < f) :
+    join sep (splitOnF f sep cur s) = cur.reverse ++ s := by
+  induction f generalizing cur s with
+  | zero => omega
+  | succ f ih =>
+    cases s with
+    | nil => simp [splitOnF, join]
+    | cons c cs =>
+      unfold splitOnF
+      split
+      · rename_i hc
+        simp only [Bool.and_eq_true] at hc
+        have hpre : sep ++ (c :: cs).drop sep.length = c :: cs :=
+          List.prefix_iff_eq_append.1 (List.isPrefixOf_iff_prefix.1 hc.2)
+        have hlen : ((c :: cs).drop sep.length).length < f := by
+          have h1 : sep.length ≥ 1 := by
+            cases sep with
+            | nil => exact absurd rfl hsep
+            | cons _ _ => simp
+          have h2 := congrArg List.length hpre
+          simp only [List.length_append] at h2
+          omega
+        rw [join_cons_of_ne_nil _ _ (splitOnF_ne_nil _ _ _ _), ih _ _ hlen]
+        simp only [List.reverse_nil, List.nil_append, List.append_assoc]
+        rw [hpre]
+      · rw [ih _ _ (by simpa using hf)]
+        simp
+
+/-! ### `FS.write`, `planWrites` -/
+
+theorem lookup_write (fs : FS) (path content q : Str) :
+    lookup q (FS.write fs path content) = if q = path then some content else lookup q fs := by
+  induction fs with
+  | nil => simp [FS.write, lookup]
+  | cons pc rest ih =>
+    obtain ⟨p, c⟩ := pc
+    unfold FS.write
+    split
+    · rename_i hp
+      have hp' : p = path := by simpa using hp
+      subst hp'
+      simp only [lookup]
+      split <;> rfl
+    · rename_i hp
+      have hp' : p ≠ path := by simpa using hp
+      simp only [lookup, ih]
+      by_cases hq : q = p
+      · subst hq; simp [hp']
+      · simp [hq]
+
+theorem lookup_foldl_write (ws : List (Str × Str)) (fs : FS) (q : Str)
+    (h : ∀ w ∈ ws, w.1 ≠ q) :
+    lookup q (ws.foldl (fun acc w => FS.write acc w.1 w.2) fs) = lookup q fs := by
+  induction ws generalizing fs with
+  | nil => rfl
+  | cons w ws ih =>
+    simp only [List.foldl_cons]
+    rw [ih _ (fun w' hw' => h w' (List.mem_cons_of_mem _ hw')), lookup_write]
+    have := h w (List.mem_cons_self)
+    simp [Ne.symm this]
+
+theorem planWrites_paths (fs : FS) (v : VInfo) (fps : List (Str × List CPat)) (ws : List (Str × Str))
+    (h : planWrites fs v fps = .ok ws) : ws.map (·.1) = fps.map (·.1) := by
+  induction fps generalizing ws with
+  | nil => simp [planWrites] at h; subst h; rfl
+  | cons fp rest ih =>
+    obtain ⟨path, pats⟩ := fp
+    unfold planWrites at h
+    split at h
+    · cases h
+    · split at h
+      · cases h
+      · split at h
+        · cases h
+        · rename_i ws' hws'
+          cases h
+          simp [ih _ hws']
+
+theorem planWrites_error_iff (fs : FS) (v : VInfo) (fps : List (Str × List CPat)) :
+    (∃ e, planWrites fs v fps = .error e) ↔
+      ∃ fp ∈ fps, lookup fp.1 fs = none ∨
+        ∃ c e, lookup fp.1 fs = some c ∧ rewriteContent fp.2 v c = .error e := by
+  induction fps with
+  | nil => simp [planWrites]
+  | cons fp rest ih =>
+    obtain ⟨path, pats⟩ := fp
+    unfold planWrites
+    cases hl : lookup path fs with
+    | none => simp [hl]
+    | some content =>
+      cases hr : rewriteContent pats v content with
+      | error e => simp [hl, hr]
+      | ok nc =>
+        simp only [List.mem_cons, exists_eq_or_imp, hl, hr]
+        cases hp : planWrites fs v rest with
+        | error e =>
+          have := ih.1 (hp ▸ ⟨e, rfl⟩)
+          simp only [hp] at ih
+          simp
+          exact .inr (by simpa using this)
+        | ok ws =>
+          have : ¬ ∃ e, planWrites fs v rest = .error e := by simp [hp]
+          rw [ih] at this
+          constructor
+          · rintro ⟨e, he⟩; cases he
+          · rintro (h | ⟨fp, hfp, h⟩)
+            · rcases h with h | ⟨c, e, hc, he⟩
+              · cases h
+              · cases hc; rw [hr] at he; cases he
+            · exact absurd ⟨fp, hfp, h⟩ this
+
+/-! ### `setLine`, `sortMatches`, `applyMatches` -/
+
+theorem setLine_eq_set (ls : List Str) (n : Nat) (s : Str) : setLine ls n s = ls.set n s := by
+  induction ls generalizing n with
+  | nil => rfl
+  | cons l ls ih => cases n <;> simp [setLine, ih]
+
+/-- the text a match is replaced with (`[]` when rendering fails; then `applyMatches` fails) -/
+def replOfL (v : VInfo) (m : PMatch) : Str :=
+  match formatVersion v (normalizePattern m.pat.vp m.pat.raw) with
+  | .ok s => s
+  | .error _ => []
+
+/-- what `applyMatches` does to ONE line: the matches of that line, in list order -/
+def spliceLine (v : VInfo) : List PMatch → Str → Str
+  | [], cur => cur
+  | m :: ms, cur => spliceLine v ms (cur.take m.start ++ replOfL v m ++ cur.drop m.stop)
+
+theorem applyMatches_ok (v : VInfo) (ms : List PMatch) (lines new : List Str)
+    (h : applyMatches v ms lines = .ok new) :
+    (∀ m ∈ ms, formatVersion v (normalizePattern m.pat.vp m.pat.raw) = .ok (replOfL v m)) ∧
+    new.length = lines.length ∧
+    ∀ i, new[i]? = (lines[i]?).map (spliceLine v (ms.filter (fun m => m.lineno == i))) := by
+  induction ms generalizing lines with
+  | nil =>
+    simp only [applyMatches, Except.ok.injEq] at h
+    subst h
+    simp [spliceLine]
+  | cons m ms ih =>
+    unfold applyMatches at h
+    split at h
+    · cases h
+    · rename_i repl hrepl
+      have hr : replOfL v m = repl := by simp [replOfL, hrepl]
+      obtain ⟨h1, h2, h3⟩ := ih _ h
+      refine ⟨?_, ?_, ?_⟩
+      · intro m' hm'
+        rcases List.mem_cons.1 hm' with rfl | hm'
+        · rw [hr]; exact hrepl
+        · exact h1 m' hm'
+      · rw [h2, setLine_eq_set, List.length_set]
+      · intro i
+        rw [h3 i, setLine_eq_set, List.getElem?_set]
+        by_cases hi : m.lineno = i
+        · subst hi
+          simp only [if_true, List.filter_cons, beq_self_eq_true]
+          by_cases hlt : m.lineno < lines.length
+          · simp [hlt, spliceLine, hr, List.getD_eq_getElem?_getD]
+          · simp [hlt]
+        · have : (m.lineno == i) = false := by simpa using hi
+          simp [hi, this]
+
+def mle (a b : PMatch) : Prop := a.lineno < b.lineno ∨ (a.lineno = b.lineno ∧ b.start ≤ a.start)
+
+theorem mle_trans {a b c : PMatch} (h1 : mle a b) (h2 : mle b c) : mle a c := by
+  unfold mle at *; omega
+
+theorem insertMatch_perm (x : PMatch) (ys : List PMatch) : (insertMatch x ys).Perm (x :: ys) := by
+  induction ys with
+  | nil => exact .refl _
+  | cons y ys ih =>
+    unfold insertMatch
+    split
+    · exact .refl _
+    · exact (List.Perm.cons y ih).trans (List.Perm.swap x y ys)
+
+theorem sortMatches_perm (ms : List PMatch) : (sortMatches ms).Perm ms := by
+  induction ms with
+  | nil => exact .refl _
+  | cons m ms ih =>
+    show (insertMatch m (sortMatches ms)).Perm (m :: ms)
+    exact (insertMatch_perm _ _).trans (List.Perm.cons m ih)
+
+theorem insertMatch_sorted (x : PMatch) (ys : List PMatch) (h : ys.Pairwise mle) :
+    (insertMatch x ys).Pairwise mle := by
+  induction ys with
+  | nil => simp [insertMatch]
+  | cons y ys ih =>
+    rw [List.pairwise_cons] at h
+    unfold insertMatch
+    split
+    · rename_i hc
+      have hxy : mle x y := by
+        simp only [Bool.or_eq_true, decide_eq_true_eq, Bool.and_eq_true, beq_iff_eq] at hc
+        unfold mle; omega
+      rw [List.pairwise_cons]
+      refine ⟨fun z hz => ?_, List.pairwise_cons.2 h⟩
+      rcases List.mem_cons.1 hz with rfl | hz
+      · exact hxy
+      · exact mle_trans hxy (h.1 z hz)
+    · rename_i hc
+      have hyx : mle y x := by
+        simp only [Bool.or_eq_true, decide_eq_true_eq, Bool.and_eq_true, beq_iff_eq] at hc
+        unfold mle; omega
+      rw [List.pairwise_cons]
+      refine ⟨fun z hz => ?_, ih h.2⟩
+      rcases List.mem_cons.1 ((insertMatch_perm x ys).mem_iff.1 hz) with rfl | hz
+      · exact hyx
+      · exact h.1 z hz
+
+theorem sortMatches_sorted (ms : List PMatch) : (sortMatches ms).Pairwise mle := by
+  induction ms with
+  | nil => simp [sortMatches]
+  | cons m ms ih => exact insertMatch_sorted m _ ih
+
+/-! ### several matches on one line -/
+
+/-- growth of the line caused by replacing `m` -/
+def growth (v : VInfo) (m : PMatch) : Int := ((replOfL v m).length : Int) - ((m.stop : Int) - (m.start : Int))
+
+theorem spliceLine_append (v : VInfo) (L : List PMatch) (p q : Str)
+    (hs : L.Pairwise (fun a b => b.stop < a.start))
+    (hb : ∀ m ∈ L, m.start ≤ m.stop ∧ m.stop ≤ p.length) :
+    spliceLine v L (p ++ q) = spliceLine v L p ++ q := by
+  induction L generalizing p with
+  | nil => rfl
+  | cons m L ih =>
+    rw [List.pairwise_cons] at hs
+    have hm := hb m List.mem_cons_self
+    simp only [spliceLine]
+    rw [List.take_append_of_le_length (by omega), List.drop_append_of_le_length (by omega),
+      ← List.append_assoc]
+    apply ih _ hs.2
+    intro m' hm'
+    have h1 := hs.1 m' hm'
+    have h2 := hb m' (List.mem_cons_of_mem _ hm')
+    simp only [List.length_append, List.length_take, List.length_drop]
+    omega
+
+theorem spliceLine_length (v : VInfo) (L : List PMatch) (line : Str)
+    (hs : L.Pairwise (fun a b => b.stop < a.start))
+    (hb : ∀ m ∈ L, m.start ≤ m.stop ∧ m.stop ≤ line.length) :
+    ((spliceLine v L line).length : Int) = (line.length : Int) + (L.map (growth v)).sum := by
+  induction L generalizing line with
+  | nil => simp [spliceLine]
+  | cons m L ih =>
+    rw [List.pairwise_cons] at hs
+    have hm := hb m List.mem_cons_self
+    simp only [spliceLine, List.map_cons, List.sum_cons]
+    rw [ih _ hs.2]
+    · simp only [List.length_append, List.length_take, List.length_drop, growth]
+      omega
+    · intro m' hm'
+      have h1 := hs.1 m' hm'
+      have h2 := hb m' (List.mem_cons_of_mem _ hm')
+      simp only [List.length_append, List.length_take, List.length_drop]
+      omega
+
+theorem take_drop_append {α} (X Y r : List α) (k n : Nat) (h : (X.drop k).take n = r)
+    (hn : r.length = n) : ((X ++ Y).drop k).take n = r := by
+  have hl := congrArg List.length h
+  simp only [List.length_take, List.length_drop] at hl
+  rw [List.drop_append, List.take_append]
+  have : n - (X.drop k).length = 0 := by simp only [List.length_drop]; omega
+  rw [this, h]; simp
+
+theorem spliceLine_occ (v : VInfo) (L : List PMatch) (line : Str)
+    (hs : L.Pairwise (fun a b => b.stop < a.start))
+    (hb : ∀ m ∈ L, m.start ≤ m.stop ∧ m.stop ≤ line.length)
+    (m : PMatch) (hm : m ∈ L) :
+    ((spliceLine v L line).drop
+        (Int.toNat ((m.start : Int) +
+          ((L.filter (fun m' => decide (m'.stop < m.start))).map (growth v)).sum))).take
+      (replOfL v m).length = replOfL v m := by
+  induction L generalizing line with
+  | nil => cases hm
+  | cons a rest ih =>
+    rw [List.pairwise_cons] at hs
+    have ha := hb a List.mem_cons_self
+    have hlt : (line.take a.start).length = a.start := by simp only [List.length_take]; omega
+    have hb' : ∀ m' ∈ rest, m'.start ≤ m'.stop ∧ m'.stop ≤ (line.take a.start).length := by
+      intro m' hm'
+      have h1 := hs.1 m' hm'
+      have h2 := hb m' (List.mem_cons_of_mem _ hm')
+      omega
+    have hsplit : spliceLine v (a :: rest) line =
+        spliceLine v rest (line.take a.start) ++ (replOfL v a ++ line.drop a.stop) := by
+      simp only [spliceLine]
+      rw [List.append_assoc, spliceLine_append v rest _ _ hs.2 hb']
+    rw [hsplit]
+    rcases List.mem_cons.1 hm with rfl | hm'
+    · have hf : (m :: rest).filter (fun m' => decide (m'.stop < m.start)) = rest := by
+        rw [List.filter_cons]
+        have : decide (m.stop < m.start) = false := by simp; omega
+        simp only [this, Bool.false_eq_true, if_false]
+        exact List.filter_eq_self.2 (fun b hb => by simpa using hs.1 b hb)
+      have hlen := spliceLine_length v rest (line.take m.start) hs.2 hb'
+      rw [hlt] at hlen
+      rw [hf, ← hlen, Int.toNat_natCast, List.drop_left, List.take_left]
+    · have h1 := hs.1 m hm'
+      have h2 := hb m (List.mem_cons_of_mem _ hm')
+      have hf : (a :: rest).filter (fun m' => decide (m'.stop < m.start)) =
+          rest.filter (fun m' => decide (m'.stop < m.start)) := by
+        rw [List.filter_cons]
+        have : decide (a.stop < m.start) = false := by simp; omega
+        simp [this]
+      rw [hf]
+      exact take_drop_append _ _ _ _ _ (ih _ hs.2 hb' hm') rfl
 
 end BV
